@@ -560,6 +560,8 @@ def check(ctx):
     for cfgname in ctx.configs(quick=('base',), thorough=('base', 'wire', 'nostd')):
         f = ctx.facts(cfgname)
         rep.cur_config = cfgname
+        from . import common as _cm
+        _cm.check_helpers(ctx, f, rep, 'C08-R0', {'Members::iter_active', 'Members::is_active'})
         from . import common as _common
         _common.check_frame(f, rep, 'C08-R0')
         _common.check_derives(f, rep, 'C08-R0')
